@@ -7,9 +7,12 @@
 (*                                                                         *)
 (* One TLC process enumerates one (packet type, direction, part); it is    *)
 (* selected by environment variables (see tools/stage_wire.py):            *)
-(*    PTYPE  packet type name           DIR   "c2s" (client writes it,     *)
-(*    OUT    ndjson file to write             C17) or "s2c" (broker        *)
-(*    PART   "k/n": every n-th vector         writes it, C18)              *)
+(*    PTYPE  packet type name                                              *)
+(*    DIR    "c2s" (the client writes it, C17) or "s2c" (the broker writes *)
+(*           it, C18)                                                      *)
+(*    OUT    ndjson file to write                                          *)
+(*    PARTK, PARTN   this process handles the vectors whose index is       *)
+(*           PARTK modulo PARTN                                            *)
 (* The tier (sizes of the sample sets) is the CONSTANT Tier of the cfg.    *)
 (*                                                                         *)
 (* Every vector is checked here against the reference itself:              *)
@@ -21,13 +24,15 @@
 (* Families (field "fam" of a vector, in this order of precedence):        *)
 (*   fields    fixed-header flags, packet identifiers, reason codes,       *)
 (*             connect flags, subscription options, forms                  *)
-(*   presence  subsets of the properties allowed for the packet (all       *)
-(*             subsets up to FullLimit properties, otherwise all subsets   *)
-(*             of size <= Strength and their complements = pairwise, or    *)
-(*             3-wise, coverage of present/absent)                         *)
+(*   presence  subsets of the properties allowed for the packet.  thorough: *)
+(*             EVERY subset for every packet type (2^17 for CONNACK) and   *)
+(*             every CONNECT subset x every Will subset; quick: every      *)
+(*             subset up to 8 properties, otherwise the subsets of size    *)
+(*             <= 2 and their complements (pairwise present/absent)        *)
 (*   values    every sample value of every property, alone and inside the  *)
 (*             complete property set                                       *)
-(*   pairs     two properties, sample value x sample value                 *)
+(*   pairs     two properties, sample value x sample value (thorough: also *)
+(*             three properties with small samples)                        *)
 (*   lists     0..3 User Properties / Subscription Identifiers / topics /  *)
 (*             reason codes, repeated names, interleaving, reverse order   *)
 (*   strings   lengths of the non-property strings (topic, payload,        *)
@@ -48,6 +53,17 @@ Thorough == Tier = "thorough"
 Tup(f) == << >> \o f                \* force the tuple representation
 
 -----------------------------------------------------------------------------
+(* TLC-specific care (no change of meaning): TLC tests membership in a set  *)
+(* it has already sorted by binary search and in any other set by linear    *)
+(* search, and it builds A \cup B and UNION S by testing every new element   *)
+(* against what it has so far.  Cardinality makes TLC sort a set in place.   *)
+(* Hence: Nz(S) = S, sorted;  A ++ B = A \cup B with A sorted first;         *)
+(* UnionAll(S) = UNION S built from one concatenated sequence.               *)
+Nz(Sx) == IF Cardinality(Sx) >= 0 THEN Sx ELSE Sx
+A ++ B == Nz(A) \cup B
+SeqSet(s) == {s[i] : i \in 1..Len(s)}
+UnionAll(SS) == SeqSet(FoldLeft(LAMBDA acc, x : acc \o SetToSeq(x), << >>, SetToSeq(SS)))
+
 (* sample sets *)
 SL   == IF Thorough THEN {0, 1, 2, 126, 127, 128, 129, 255, 256, 16382, 16383, 16384, 16385, 32767, 32768, 65534, 65535}
                     ELSE {0, 1, 127, 128, 16383, 16384, 65535}
@@ -64,12 +80,12 @@ VBIE == IF Thorough THEN {1, 2, 126, 127, 128, 129, 16382, 16383, 16384, 16385, 
 VBIs == IF Thorough THEN {1, 127, 128, 16383, 16384, 2097151, 2097152, 268435455} ELSE {1, 128, 16384, 2097152, 268435455}
 PairLens  == {<<0, 0>>, <<1, 1>>, <<0, 1>>, <<1, 0>>, <<127, 128>>, <<128, 127>>, <<16383, 16384>>, <<16384, 16383>>,
               <<65535, 65535>>, <<0, 65535>>, <<65535, 0>>}
-             \cup (IF Thorough THEN {<<a, a>> : a \in SL} ELSE {})
+             ++ (IF Thorough THEN {<<a, a>> : a \in SL} ELSE {})
 PairLensS == {<<0, 0>>, <<1, 1>>, <<128, 127>>, <<65535, 65535>>}
 RLE  == IF Thorough THEN {126, 127, 128, 129, 16382, 16383, 16384, 16385, 2097150, 2097151, 2097152, 2097153}
                     ELSE {127, 128, 16383, 16384, 2097151, 2097152}
 PIDE == U16E \ {0}
-FullLimit == IF Thorough THEN 10 ELSE 8
+FullLimit == IF Thorough THEN 20 ELSE 8      \* thorough: every subset for every packet type (CONNACK: 2^17)
 Strength  == IF Thorough THEN 3 ELSE 2
 
 (* each string role gets its own letter, so that swapped fields are seen *)
@@ -116,23 +132,28 @@ PropSeq(Sx) == LET s == Sorted(Sx) IN Tup([i \in 1..Len(s) |-> P(s[i])])
 Adm(ps, ctx) == IF (ctx = "AUTH" \/ HasProp(ps, 22)) /\ ~HasProp(ps, 21) THEN <<P(21)>> \o ps ELSE ps
 
 UpTo(A, k) == IF k = 0 THEN {{}}
-              ELSE IF k = 1 THEN {{}} \cup {{a} : a \in A}
-              ELSE IF k = 2 THEN {{}} \cup {{a} : a \in A} \cup {{a, b} : a \in A, b \in A}
-              ELSE {{}} \cup {{a} : a \in A} \cup {{a, b} : a \in A, b \in A} \cup {{a, b, c} : a \in A, b \in A, c \in A}
+              ELSE IF k = 1 THEN {{}} ++ {{a} : a \in A}
+              ELSE IF k = 2 THEN {{}} ++ {{a} : a \in A} ++ {{a, b} : a \in A, b \in A}
+              ELSE {{}} ++ {{a} : a \in A} ++ {{a, b} : a \in A, b \in A} ++ {{a, b, c} : a \in A, b \in A, c \in A}
 SubsetsFor(A) == IF Cardinality(A) <= FullLimit THEN SUBSET A
-                 ELSE LET small == UpTo(A, Strength) IN small \cup {A \ x : x \in small}
+                 ELSE LET small == UpTo(A, Strength) IN small ++ {A \ x : x \in small}
 
 PsPresence(A, ctx) == {Adm(PropSeq(x), ctx) : x \in SubsetsFor(A)}
 
 Replace(ps, id, v) == [i \in 1..Len(ps) |-> IF ps[i].id = id THEN Pv(id, v) ELSE ps[i]]
 PsValues(A, ctx) ==
-    UNION {{Adm(<<Pv(id, v)>>, ctx) : v \in Vals(id)} : id \in A}
-    \cup UNION {{Tup(Replace(PropSeq(A), id, v)) : v \in Vals(id)} : id \in A}
+    UnionAll({{Adm(<<Pv(id, v)>>, ctx) : v \in Vals(id)} : id \in A})
+    ++ UnionAll({{Tup(Replace(PropSeq(A), id, v)) : v \in Vals(id)} : id \in A})
 
-PsPairs(A, ctx) ==
-    UNION {   {Adm(<<Pv(ij[1], a), Pv(ij[2], b)>>, ctx) : a \in Vals(ij[1]), b \in ValsS(ij[2])}
-         \cup {Adm(<<Pv(ij[1], a), Pv(ij[2], b)>>, ctx) : a \in ValsS(ij[1]), b \in Vals(ij[2])}
-         : ij \in {x \in A \X A : x[1] < x[2]}}
+PsPairs(A, ctx) ==                                      \* quick: all x small sample and small x all; thorough: all x all
+    UnionAll({   {Adm(<<Pv(ij[1], a), Pv(ij[2], b)>>, ctx) : a \in Vals(ij[1]), b \in (IF Thorough THEN Vals(ij[2]) ELSE ValsS(ij[2]))}
+         ++ {Adm(<<Pv(ij[1], a), Pv(ij[2], b)>>, ctx) : a \in ValsS(ij[1]), b \in Vals(ij[2])}
+         : ij \in {x \in A \X A : x[1] < x[2]}})
+
+PsTriples(A, ctx) ==                                    \* thorough only: three properties, small samples
+    IF ~Thorough THEN {}
+    ELSE UnionAll({{Adm(<<Pv(x[1], a), Pv(x[2], b), Pv(x[3], c)>>, ctx) : a \in ValsS(x[1]), b \in ValsS(x[2]), c \in ValsS(x[3])}
+                : x \in {y \in A \X A \X A : y[1] < y[2] /\ y[2] < y[3]}})
 
 UP(i) == Pv(38, <<K(i), V(i + 1)>>)
 PLSeq == <<<<0, 0>>, <<1, 1>>, <<127, 128>>, <<128, 127>>, <<16383, 16384>>, <<65535, 65535>>, <<0, 65535>>, <<65535, 0>>, <<0, 0>>, <<1, 1>>>>
@@ -146,14 +167,14 @@ PsUserLists(A, ctx) ==
            <<UP(1), UP(1)>>, <<UP(1), Pv(38, <<K(1), V(3)>>)>>, <<UP(1), UP(1), UP(1)>>,
            <<UP(1)>> \o x1 \o <<UP(2)>> \o x2 \o <<UP(3)>>,                          \* interleaved with other identifiers
            x1 \o <<UP(2), UP(1)>> \o x2}
-          \cup {<<UPL(PLSeq[i]), UPL(PLSeq[i + 1])>> : i \in 1..8}
-          \cup {<<UPL(PLSeq[i]), UPL(PLSeq[i + 1]), UPL(PLSeq[i + 2])>> : i \in 1..8}}
+          ++ {<<UPL(PLSeq[i]), UPL(PLSeq[i + 1])>> : i \in 1..8}
+          ++ {<<UPL(PLSeq[i]), UPL(PLSeq[i + 1]), UPL(PLSeq[i + 2])>> : i \in 1..8}}
 
 Rev(s) == [i \in 1..Len(s) |-> s[Len(s) + 1 - i]]
 PsOrder(A, ctx) ==                                       \* "no significance in the order" (2.2.2.1)
     LET full == Adm(PropSeq(A), ctx)
         n == Len(full)
-    IN  {Tup(Rev(full))} \cup {Tup([i \in 1..n |-> full[((i + k - 1) % n) + 1]]) : k \in 1..(IF n > 1 THEN n - 1 ELSE 0)}
+    IN  {Tup(Rev(full))} ++ {Tup([i \in 1..n |-> full[((i + k - 1) % n) + 1]]) : k \in 1..(IF n > 1 THEN n - 1 ELSE 0)}
 
 (* a property sequence whose encoded body is exactly L bytes long (L = 0 or *)
 (* L >= 5): User Properties of 5 + 65535 + 65535 bytes and one filler       *)
@@ -231,96 +252,100 @@ FFields ==
     CASE T = "CONNECT" ->
             {Vx(MkConnect(c, 60, ps, S(99, 3), w, u, pw)) :
                 c \in {0, 1},
-                w \in {<< >>} \cup {<<MkWill(q, r, << >>, S(84, 2), S(80, 3))>> : q \in 0..2, r \in 0..1},
+                w \in {<< >>} ++ {<<MkWill(q, r, << >>, S(84, 2), S(80, 3))>> : q \in 0..2, r \in 0..1},
                 u \in {<< >>, <<S(117, 2)>>}, pw \in {<< >>, <<S(119, 4)>>},
                 ps \in {<< >>, <<P(17), P(33)>>}}
-            \cup {Vx(MkConnect(1, ka, << >>, S(99, 3), << >>, << >>, << >>)) : ka \in U16E}
+            ++ {Vx(MkConnect(1, ka, << >>, S(99, 3), << >>, << >>, << >>)) : ka \in U16E}
       [] T = "CONNACK" ->
             {Vx(MkConnack(sp, 0, ps)) : sp \in {0, 1}, ps \in {<< >>, <<P(33)>>}}
-            \cup {Vx(MkConnack(0, rc, ps)) : rc \in Codes, ps \in {<< >>, <<P(31)>>, <<P(28), P(31), P(38)>>}}
+            ++ {Vx(MkConnack(0, rc, ps)) : rc \in Codes, ps \in {<< >>, <<P(31)>>, <<P(28), P(31), P(38)>>}}
       [] T = "PUBLISH" ->
             {x \in {Vx(MkPublish(d, q, r, Topic1, IF q = 0 THEN 0 ELSE 1, ps, pl)) :
                         d \in {0, 1}, q \in 0..2, r \in {0, 1},
                         ps \in {<< >>, <<P(1), P(38)>>, PropSeq(Allowed)}, pl \in {<< >>, S(112, 3)}} : PacketOK(x.pkt)}
-            \cup {Vx(MkPublish(0, q, 0, Topic1, id, ps, S(112, 3))) : q \in 1..2, id \in PIDE, ps \in {<< >>, <<P(35)>>}}
+            ++ {Vx(MkPublish(0, q, 0, Topic1, id, ps, S(112, 3))) : q \in 1..2, id \in PIDE, ps \in {<< >>, <<P(35)>>}}
       [] T \in Acks ->
-            UNION {AllForms(MkAck(T, id, rc, ps)) : id \in PIDE, rc \in Codes, ps \in {<< >>, <<P(31)>>, <<P(38)>>, <<P(31), P(38)>>}}
+            UnionAll({AllForms(MkAck(T, id, rc, ps)) : id \in PIDE, rc \in Codes, ps \in {<< >>, <<P(31)>>, <<P(38)>>, <<P(31), P(38)>>}})
       [] T = "SUBSCRIBE" ->
             {Vx(MkSubscribe(1, ps, <<MkFilter(S(102, 3), q, nl, rap, rh)>>)) :
                 q \in 0..2, nl \in 0..1, rap \in 0..1, rh \in 0..2, ps \in {<< >>, <<P(11)>>}}
-            \cup {Vx(MkSubscribe(id, << >>, <<F1>>)) : id \in PIDE}
+            ++ {Vx(MkSubscribe(id, << >>, <<F1>>)) : id \in PIDE}
       [] T = "UNSUBSCRIBE" ->
             {Vx(MkUnsubscribe(id, ps, <<S(102, 3)>>)) : id \in PIDE, ps \in {<< >>, <<P(38)>>}}
       [] T \in {"SUBACK", "UNSUBACK"} ->
             {Vx(MkCodes(T, id, ps, <<rc>>)) : id \in PIDE, rc \in Codes, ps \in {<< >>, <<P(31)>>}}
       [] T \in {"PINGREQ", "PINGRESP"} -> {Vx([type |-> T])}
       [] T \in {"DISCONNECT", "AUTH"} ->
-            UNION {AllForms(MkRc(T, rc, Adm(ps, T))) : rc \in Codes, ps \in {<< >>, <<P(31)>>, <<P(38)>>, <<P(31), P(38)>>}}
-            \cup (IF Dir = "s2c" THEN UNION {AllForms(MkRc(T, rc, << >>)) : rc \in Codes \cap {0}} ELSE {})
+            UnionAll({AllForms(MkRc(T, rc, Adm(ps, T))) : rc \in Codes, ps \in {<< >>, <<P(31)>>, <<P(38)>>, <<P(31), P(38)>>}})
+            ++ (IF Dir = "s2c" THEN UnionAll({AllForms(MkRc(T, rc, << >>)) : rc \in Codes \cap {0}}) ELSE {})
 
 FPresence ==
     IF ~HasP THEN {}
     ELSE {Vx(WithProps(ps)) : ps \in PsPresence(Allowed, T)}
-         \cup (IF T = "PUBLISH"                     \* also without a Packet Identifier in front of the properties
+         ++ (IF T = "PUBLISH"                     \* also without a Packet Identifier in front of the properties
                THEN {Vx(MkPublish(0, 0, 1, Topic1, 0, ps, << >>)) : ps \in PsPresence(Allowed, T)} ELSE {})
-         \cup (IF IsConnect
+         ++ (IF IsConnect
                THEN {Vx(WithWillProps(ps)) : ps \in PsPresence(WillA, "WILL")}
-                    \cup {Vx(MkConnect(0, 10, ps, S(99, 3), <<BaseWill>>, <<S(117, 2)>>, <<S(119, 4)>>)) : ps \in PsPresence(Allowed, T)}
+                    ++ {Vx(MkConnect(0, 10, ps, S(99, 3), <<BaseWill>>, <<S(117, 2)>>, <<S(119, 4)>>)) : ps \in PsPresence(Allowed, T)}
+                    ++ (IF Thorough                      \* every CONNECT subset x every Will subset
+                        THEN {Vx(MkConnect(1, 60, ps, S(99, 3), <<MkWill(1, 0, wps, S(84, 2), S(80, 3))>>, << >>, << >>)) :
+                                 ps \in PsPresence(Allowed, T), wps \in PsPresence(WillA, "WILL")}
+                        ELSE {})
                ELSE {})
 
 FValues ==
     IF ~HasP THEN {}
     ELSE {Vx(WithProps(ps)) : ps \in PsValues(Allowed, T)}
-         \cup (IF IsConnect THEN {Vx(WithWillProps(ps)) : ps \in PsValues(WillA, "WILL")} ELSE {})
+         ++ (IF IsConnect THEN {Vx(WithWillProps(ps)) : ps \in PsValues(WillA, "WILL")} ELSE {})
 
 FPairs ==
     IF ~HasP THEN {}
-    ELSE {Vx(WithProps(ps)) : ps \in PsPairs(Allowed, T)}
-         \cup (IF IsConnect THEN {Vx(WithWillProps(ps)) : ps \in PsPairs(WillA, "WILL")} ELSE {})
+    ELSE {Vx(WithProps(ps)) : ps \in PsPairs(Allowed, T) ++ PsTriples(Allowed, T)}
+         ++ (IF IsConnect THEN {Vx(WithWillProps(ps)) : ps \in PsPairs(WillA, "WILL") ++ PsTriples(WillA, "WILL")} ELSE {})
 
 SubIdSeqs ==
     LET e == Sorted(VBIE)
         n == Len(e)
-    IN  {<< >>} \cup {<<Pv(11, a)>> : a \in VBIE} \cup {<<Pv(11, a), Pv(11, b)>> : a \in VBIs, b \in VBIs}
-        \cup {<<Pv(11, e[i]), Pv(11, e[(i % n) + 1]), Pv(11, e[((i + 1) % n) + 1])>> : i \in 1..n}
-        \cup {<<Pv(11, 1), Pv(11, 1), Pv(11, 1)>>}
+    IN  {<< >>} ++ {<<Pv(11, a)>> : a \in VBIE} ++ {<<Pv(11, a), Pv(11, b)>> : a \in VBIs, b \in VBIs}
+        ++ {<<Pv(11, e[i]), Pv(11, e[(i % n) + 1]), Pv(11, e[((i + 1) % n) + 1])>> : i \in 1..n}
+        ++ {<<Pv(11, 1), Pv(11, 1), Pv(11, 1)>>}
 
 FLists ==
     (IF HasP
-     THEN {Vx(WithProps(ps)) : ps \in PsUserLists(Allowed, T) \cup PsOrder(Allowed, T)}
-          \cup (IF IsConnect THEN {Vx(WithWillProps(ps)) : ps \in PsUserLists(WillA, "WILL") \cup PsOrder(WillA, "WILL")} ELSE {})
+     THEN {Vx(WithProps(ps)) : ps \in PsUserLists(Allowed, T) ++ PsOrder(Allowed, T)}
+          ++ (IF IsConnect THEN {Vx(WithWillProps(ps)) : ps \in PsUserLists(WillA, "WILL") ++ PsOrder(WillA, "WILL")} ELSE {})
      ELSE {})
-    \cup
+    ++
     CASE T = "PUBLISH" /\ Dir = "s2c" ->
             {Vx(WithProps(ps)) : ps \in SubIdSeqs}
-            \cup {Vx(WithProps(<<P(1)>> \o ps \o <<UP(1)>>)) : ps \in SubIdSeqs}
-            \cup {Vx(WithProps(<<Pv(11, 1), UP(1), Pv(11, 128), P(35), Pv(11, 16384), UP(2)>>))}
+            ++ {Vx(WithProps(<<P(1)>> \o ps \o <<UP(1)>>)) : ps \in SubIdSeqs}
+            ++ {Vx(WithProps(<<Pv(11, 1), UP(1), Pv(11, 128), P(35), Pv(11, 16384), UP(2)>>))}
       [] T = "SUBSCRIBE" ->
             {Vx(MkSubscribe(1, << >>, Tup([i \in 1..n |-> MkFilter(S(101 + i, i), i % 3, i % 2, (i + 1) % 2, (i + 1) % 3)]))) : n \in 1..3}
-            \cup {Vx(MkSubscribe(1, <<P(11), UP(1)>>, <<MkFilter(S(102, a), 2, 1, 1, 2), MkFilter(S(103, b), 0, 0, 0, 0)>>)) : a \in SLs \ {0}, b \in SLs \ {0}}
+            ++ {Vx(MkSubscribe(1, <<P(11), UP(1)>>, <<MkFilter(S(102, a), 2, 1, 1, 2), MkFilter(S(103, b), 0, 0, 0, 0)>>)) : a \in SLs \ {0}, b \in SLs \ {0}}
       [] T = "UNSUBSCRIBE" ->
             {Vx(MkUnsubscribe(1, << >>, Tup([i \in 1..n |-> S(101 + i, i)]))) : n \in 1..3}
-            \cup {Vx(MkUnsubscribe(1, <<UP(1)>>, <<S(102, a), S(103, b)>>)) : a \in SLs \ {0}, b \in SLs \ {0}}
+            ++ {Vx(MkUnsubscribe(1, <<UP(1)>>, <<S(102, a), S(103, b)>>)) : a \in SLs \ {0}, b \in SLs \ {0}}
       [] T \in {"SUBACK", "UNSUBACK"} ->
             LET cs == Sorted(Codes) n == Len(cs)
             IN  {Vx(MkCodes(T, 1, ps, <<cs[i], cs[(i % n) + 1]>>)) : i \in 1..n, ps \in {<< >>, <<P(31), UP(1)>>}}
-                \cup {Vx(MkCodes(T, 1, ps, <<cs[i], cs[(i % n) + 1], cs[((i + 1) % n) + 1]>>)) : i \in 1..n, ps \in {<< >>, <<P(31), UP(1)>>}}
-                \cup {Vx(MkCodes(T, 1, << >>, Tup([i \in 1..k |-> cs[(i % n) + 1]]))) : k \in {2, 3, 124, 125, 126, 127, 128}}
+                ++ {Vx(MkCodes(T, 1, ps, <<cs[i], cs[(i % n) + 1], cs[((i + 1) % n) + 1]>>)) : i \in 1..n, ps \in {<< >>, <<P(31), UP(1)>>}}
+                ++ {Vx(MkCodes(T, 1, << >>, Tup([i \in 1..k |-> cs[(i % n) + 1]]))) : k \in {2, 3, 124, 125, 126, 127, 128}}
       [] OTHER -> {}
 
 FStrings ==
     CASE T = "CONNECT" ->
             {Vx(MkConnect(1, 60, << >>, S(99, n), << >>, << >>, << >>)) : n \in SL}
-            \cup {Vx(MkConnect(1, 60, << >>, S(99, 1), << >>, <<S(117, n)>>, << >>)) : n \in SL}
-            \cup {Vx(MkConnect(1, 60, << >>, S(99, 1), << >>, << >>, <<S(119, n)>>)) : n \in SL}
-            \cup {Vx(MkConnect(1, 60, << >>, S(99, 1), <<MkWill(0, 0, << >>, S(84, n), S(80, 1))>>, << >>, << >>)) : n \in SL \ {0}}
-            \cup {Vx(MkConnect(1, 60, << >>, S(99, 1), <<MkWill(0, 0, << >>, S(84, 1), S(80, n))>>, << >>, << >>)) : n \in SL}
-            \cup {Vx(MkConnect(0, 0, <<P(21)>>, S(99, a), <<MkWill(2, 1, <<P(3)>>, S(84, 1 + b), S(80, c))>>, <<S(117, d)>>, <<S(119, e)>>)) :
+            ++ {Vx(MkConnect(1, 60, << >>, S(99, 1), << >>, <<S(117, n)>>, << >>)) : n \in SL}
+            ++ {Vx(MkConnect(1, 60, << >>, S(99, 1), << >>, << >>, <<S(119, n)>>)) : n \in SL}
+            ++ {Vx(MkConnect(1, 60, << >>, S(99, 1), <<MkWill(0, 0, << >>, S(84, n), S(80, 1))>>, << >>, << >>)) : n \in SL \ {0}}
+            ++ {Vx(MkConnect(1, 60, << >>, S(99, 1), <<MkWill(0, 0, << >>, S(84, 1), S(80, n))>>, << >>, << >>)) : n \in SL}
+            ++ {Vx(MkConnect(0, 0, <<P(21)>>, S(99, a), <<MkWill(2, 1, <<P(3)>>, S(84, 1 + b), S(80, c))>>, <<S(117, d)>>, <<S(119, e)>>)) :
                     a \in SLs, b \in {0, 65534}, c \in SLs, d \in SLs, e \in SLs}
       [] T = "PUBLISH" ->
             {Vx(MkPublish(0, q, 0, S(116, n), q, << >>, S(112, m))) : q \in 0..1, n \in SL \ {0}, m \in SL}
-            \cup {Vx(MkPublish(0, q, 0, << >>, q, <<P(35)>>, S(112, m))) : q \in 0..1, m \in SLs}       \* empty topic, Topic Alias
-            \cup {Vx(MkPublish(0, 2, 1, S(116, n), 65535, <<P(8), UP(1)>>, S(112, m))) : n \in SLs \ {0}, m \in SLs}
+            ++ {Vx(MkPublish(0, q, 0, << >>, q, <<P(35)>>, S(112, m))) : q \in 0..1, m \in SLs}       \* empty topic, Topic Alias
+            ++ {Vx(MkPublish(0, 2, 1, S(116, n), 65535, <<P(8), UP(1)>>, S(112, m))) : n \in SLs \ {0}, m \in SLs}
       [] T = "SUBSCRIBE" ->
             {Vx(MkSubscribe(1, ps, <<MkFilter(S(102, n), 2, 0, 1, 1)>>)) : n \in SL \ {0}, ps \in {<< >>, <<P(11)>>}}
       [] T = "UNSUBSCRIBE" ->
@@ -335,17 +360,17 @@ RLOf(ps) == RemainingLength(WithProps(ps), "full")
 WillPL(ps) == PropertyLength(ps)
 FLengths ==
     (IF HasP
-     THEN UNION {{Vx(WithProps(Adm(ps, T))) : ps \in Fit(PropertyLength, target)} : target \in RLE \cup {5}}     \* Property Length
-          \cup UNION {{Vx(WithProps(Adm(ps, T))) : ps \in Fit(RLOf, target)} : target \in RLE}                  \* Remaining Length
-          \cup (IF IsConnect
-                THEN {Vx(WithWillProps(PropsOfLen(L))) : L \in {x \in RLE \cup {0, 5} : PLOK(x)}} ELSE {})
+     THEN UnionAll({{Vx(WithProps(Adm(ps, T))) : ps \in Fit(PropertyLength, target)} : target \in RLE ++ {5}})     \* Property Length
+          ++ UnionAll({{Vx(WithProps(Adm(ps, T))) : ps \in Fit(RLOf, target)} : target \in RLE})                  \* Remaining Length
+          ++ (IF IsConnect
+                THEN {Vx(WithWillProps(PropsOfLen(L))) : L \in {x \in RLE ++ {0, 5} : PLOK(x)}} ELSE {})
      ELSE {})
-    \cup
+    ++
     (IF T = "PUBLISH"
      THEN LET ovh(q, ps) == RemainingLength(MkPublish(0, q, 0, Topic1, q, ps, << >>), "full")
           IN  {Vx(MkPublish(0, q, 0, Topic1, q, ps, S(112, target - ovh(q, ps)))) :
                   q \in 0..1, ps \in {<< >>, <<P(1), UP(1)>>},
-                  target \in RLE \cup {268435455} \cup (IF Thorough THEN {268435454} ELSE {})}
+                  target \in RLE ++ {268435455} ++ (IF Thorough THEN {268435454} ELSE {})}
      ELSE {})
 
 (* contents other than runs of one ASCII letter: Binary Data may hold any   *)
@@ -359,14 +384,14 @@ ContentVals(id) ==
           [] ty = "utf8" -> {Utf1}
           [] ty = "pair" -> {<<Utf1, Utf1>>, <<Utf1, << >>>>, <<K(1), Utf1>>}
           [] OTHER -> {}
-PsContent(A, ctx) == UNION {{Adm(<<Pv(id, v)>>, ctx) : v \in ContentVals(id)} : id \in A}
-                     \cup UNION {{Tup(Replace(PropSeq(A), id, v)) : v \in ContentVals(id)} : id \in A}
+PsContent(A, ctx) == UnionAll({{Adm(<<Pv(id, v)>>, ctx) : v \in ContentVals(id)} : id \in A})
+                     ++ UnionAll({{Tup(Replace(PropSeq(A), id, v)) : v \in ContentVals(id)} : id \in A})
 FContent ==
     (IF HasP
      THEN {Vx(WithProps(ps)) : ps \in PsContent(Allowed, T)}
-          \cup (IF IsConnect THEN {Vx(WithWillProps(ps)) : ps \in PsContent(WillA, "WILL")} ELSE {})
+          ++ (IF IsConnect THEN {Vx(WithWillProps(ps)) : ps \in PsContent(WillA, "WILL")} ELSE {})
      ELSE {})
-    \cup
+    ++
     CASE T = "CONNECT" ->
             {Vx(MkConnect(1, 60, << >>, Utf1, <<MkWill(1, 1, << >>, Utf1, pl)>>, <<Utf1>>, <<pw>>)) :
                 pl \in {Bin1, Run(0, 2), Run(255, 65535)}, pw \in {Bin1, Run(0, 1), Run(255, 65535), Run(128, 3)}}
@@ -381,10 +406,20 @@ Families == << <<"fields", FFields>>, <<"presence", FPresence>>, <<"values", FVa
                <<"lists", FLists>>, <<"strings", FStrings>>, <<"lengths", FLengths>>, <<"content", FContent>> >>
 
 -----------------------------------------------------------------------------
-AllVecs == UNION {Families[i][2] : i \in 1..Len(Families)}
-FamOf(v) == Families[CHOOSE i \in 1..Len(Families) : v \in Families[i][2] /\ \A j \in 1..(i - 1) : v \notin Families[j][2]][1]
+(* A vector belongs to the first family that produces it.                   *)
+RECURSIVE Distinct(_, _, _)
+Distinct(i, seen, acc) ==                                \* acc[i] = Families[i][2] minus all earlier families
+    IF i > Len(Families) THEN acc
+    ELSE LET mine == LET d == Families[i][2] \ seen IN Nz(d)
+             all  == LET u == seen ++ mine IN Nz(u)
+         IN  Distinct(i + 1, all, Append(acc, mine))
+Parts == Distinct(1, {}, << >>)
 
-Vecs == SetToSeq(AllVecs)
+RECURSIVE Labelled(_)
+Labelled(i) == IF i > Len(Families) THEN << >>
+               ELSE LET s == SetToSeq(Parts[i])
+                    IN  [k \in 1..Len(s) |-> [fam |-> Families[i][1], pkt |-> s[k].pkt, form |-> s[k].form]] \o Labelled(i + 1)
+Vecs == Labelled(1)
 
 PartK == atoi(IOEnv.PARTK)
 PartN == atoi(IOEnv.PARTN)
@@ -394,7 +429,7 @@ IdBase == 1000000 * TypeNo(T) + (IF Dir = "s2c" THEN 500000 ELSE 0)
 
 Out == [k \in 1..Len(Mine) |->
           LET v == Vecs[Mine[k]]
-          IN  [id |-> IdBase + Mine[k], type |-> T, dir |-> Dir, fam |-> FamOf(v), form |-> v.form,
+          IN  [id |-> IdBase + Mine[k], type |-> T, dir |-> Dir, fam |-> v.fam, form |-> v.form,
                pkt |-> v.pkt, rl |-> RemainingLength(v.pkt, v.form), bytes |-> Encode(v.pkt, v.form)]]
 
 SelfCheck(o) ==
